@@ -680,6 +680,112 @@ def rule_skipped_token_trivia(ck, facts):
     ck.floor(R, "token_arms_checked", n, 40)
 
 
+
+def _mentions(f, b, local):
+    """does block b use `local` other than by dropping it / assigning it as a whole?  -> (uses, redefines)"""
+    from .c16 import _places_of
+
+    uses = False
+    redef = False
+    for st in f.stmts(b):
+        if st[KIND] != "a":
+            continue
+        pls = _places_of(st)
+        if any(p[0] == local for p in pls[1:]):
+            uses = True
+        if pls[0][0] == local:
+            if pls[0][1]:
+                uses = True
+            elif not uses:
+                redef = True
+        if st[5][0] == "bin" and any(o[0] in ("cp", "mv") and o[1][0] == local for o in st[5][2:4]):
+            uses = True
+    t = f.term(b)
+    if t[KIND] == "call":
+        if any(a[0] in ("cp", "mv") and a[1][0] == local for a in t[5]):
+            uses = True
+        elif t[6] is not None and t[6][0] == local and not t[6][1] and not uses:
+            redef = True
+    elif t[KIND] == "switch" and t[4][0] in ("cp", "mv") and t[4][1][0] == local:
+        uses = True
+    return uses, redef
+
+
+def rule_carried_trivia(ck, facts):
+    """comments read in one iteration of a printer loop reach the output even when nothing follows"""
+    from ..cfg import natural_loops
+
+    R = "C14.skipped-trivia"
+    FR = fmt_roles(facts)
+    prod = FR["emitters"] | FR["trivia"]
+    n = 0
+    for f in facts.crate(FMT).fns:
+        if "cst_print" not in f.path or f.kind == "promoted" or "::test" in f.path:
+            continue
+        sites = [(b, t) for b, t in f.calls() if (callee(t) or "") in prod and t[6] is not None and not t[6][1]]
+        if not sites:
+            continue
+        loops = natural_loops(f)
+        for b, t in sites:
+            inside = [(h, body) for h, body in loops if b in body]
+            if not inside:
+                continue
+            h, body = min(inside, key=lambda x: len(x[1]))
+            L = t[6][0]
+            # aliases: the document is usually moved once into a named local (`x = emit(..)` on an existing `x` is a call
+            # into a temporary, a drop of the old value and a move)
+            for _ in range(3):
+                mv = [(bb, st) for bb, st in f.all_stmts() if st[KIND] == "a" and not st[4][1] and st[5][0] == "use" and st[5][1][0] == "mv" and st[5][1][1] == [L, []]]
+                if len(mv) == 1 and mv[0][0] in body:
+                    b, L = mv[0][0], mv[0][1][4][0]
+                else:
+                    break
+            n += 1
+            # live across the back edge?  a path header -> ... -> use of L inside the loop that does not pass a redefinition
+            seen = set()
+            work = [h]
+            live = False
+            while work and not live:
+                x = work.pop()
+                if x in seen or x not in body:
+                    continue
+                seen.add(x)
+                u, r = _mentions(f, x, L)
+                if u and not (x == b):
+                    live = True
+                    break
+                if r or x == b:
+                    continue
+                work.extend(f.succs(x))
+            root = f.root.split("::")[-1]
+            key = "carried|%s" % root
+            if not live:
+                ck.ok(R, key, {"printer": root, "trivia": "consumed in the iteration that read it"})
+                continue
+            # carried into the next iteration: every way out of the loop must still use it
+            exits = {s2 for x in body for s2 in f.succs(x) if s2 not in body and not f.is_cleanup(s2)}
+            lost = None
+            seen = set()
+            work = list(exits)
+            while work and lost is None:
+                x = work.pop()
+                if x in seen:
+                    continue
+                seen.add(x)
+                u, r = _mentions(f, x, L)
+                if u:
+                    continue
+                if f.term(x)[KIND] == "return":
+                    lost = x
+                    break
+                work.extend(s2 for s2 in f.succs(x) if not f.is_cleanup(s2))
+            if lost is None:
+                ck.ok(R, key, {"printer": root, "trivia": "carried to the next item and flushed after the loop"})
+            else:
+                ck.bad(R, key, "%s keeps the comments it read at one token in a local for the item that follows and never writes them when the loop ends first: comments behind the last separator of a list (`f(a, // first\n b, // second\n)`, `(1, 2, /* two */)`) disappear from the formatted program" % f.short, f.where(t))
+    ck.floor(R, "trivia_reads_in_loops", n, 5)
+
+
 def token_texts(facts):
     """TokenKind variant -> its spelling, read off the arms of <TokenKind as Display>::fmt"""
     from ..cfg import DefIndex
@@ -776,6 +882,7 @@ def run(ck, facts, tier):
     ck.floor("C14.anchor", "fmt_bodies", len(facts.crate(FMT).fns), 100)
     rule_token_glue(ck, facts)
     rule_skipped_token_trivia(ck, facts)
+    rule_carried_trivia(ck, facts)
     rule_dispatch(ck, facts, pm)
     rule_comment_kinds(ck, facts)
     rule_trivia_sinks(ck, facts)
@@ -786,5 +893,9 @@ def run(ck, facts, tier):
     rule_list_items(ck, facts)
     from . import c13
 
+    from . import c16 as _c16
+
+    # the formatter moves own-line comments onto the preceding line: sound only while a comment cannot hide a line break
+    _c16.rule_trivia_scan(ck, facts)
     c13.rule_trivia(ck, facts, loss=False, lazy=True)  # the overwrite clause: trivia the formatter never gets to see
     ck.not_decided("AST equality of input and output, idempotence, behaviour at every line width (run-time properties of the layout engine)")
